@@ -109,10 +109,11 @@ def cases(outside=True):
 
 
 class Axis(object):
-    def __init__(self, ax, case):
+    def __init__(self, ax, case, n=NN):
         self.ax = ax
         self.case = case
-        self.c = [Rat.var('c%d_%d' % (ax, i)) for i in range(NN)]
+        self.n = n
+        self.c = [Rat.var('c%d_%d' % (ax, i)) for i in range(n)]
         self.cvec = SArr(list(self.c))
         self.yname = 'y%d' % ax
         c = self.c
@@ -136,7 +137,7 @@ class Axis(object):
             return cs.k + 1
         if cs.kind == 'below':
             return 0
-        return NN
+        return self.n
 
     # --- what the property demands ----------------------------------------
     def nearest_weights(self):
@@ -439,12 +440,18 @@ def run_split(model, how, schemes, case_tuple, with_out=False, vals=None,
                 yield r
 
 
-def run(model, how, schemes, case_tuple, with_out=False, vals=None):
+def run(model, how, schemes, case_tuple, with_out=False, vals=None,
+        nodes=None):
     """Evaluate an interpolator on the case.  ``how`` is a class name
     (instantiated directly, meshgrid input) or a public factory name.
     Returns (result entry, axes, values, decided conditions)."""
     ndim = len(case_tuple)
-    axes = [Axis(i, c) for i, c in enumerate(case_tuple)]
+    axes = [Axis(i, c, nodes[i] if nodes else NN)
+            for i, c in enumerate(case_tuple)]
+    if vals is None and nodes:
+        vals = ND(tuple(nodes), {
+            idx: Rat.var('v' + ''.join(str(i) for i in idx))
+            for idx in itertools.product(*[range(n) for n in nodes])})
     if vals is None:
         vals = values_nd(ndim)
     hooks = IH(axes)
@@ -1246,6 +1253,7 @@ def forwarding(rep, model):
     deform(rep, model)
     deform_alias(rep, model)
     interp_property(rep, model)
+    single_node_axes(rep, model)
 
 
 class EH(Hooks):
@@ -1478,6 +1486,58 @@ def deform_alias(rep, model):
         except Undecided as e:
             rep.undecided('R6a', cons, str(e), LD, fn.lineno)
     rep.floor('R6a', 'deformation operators', n, 2)
+
+
+def single_node_axes(rep, model):
+    """R1s: grids with an axis of a single node (a legal space shape): at a
+    query point whose coordinate on that axis is the node, every scheme
+    returns the blend along the other axes -- in particular the node values
+    are reproduced.  1-d: the node itself; 2-d: single-node axis x regular
+    axis over the reduced ordering cases of the regular axis."""
+    n = 0
+    node0 = Case('node', 0, name='node0')
+    jobs = []
+    for how, sch in SCHEMES_1D:
+        if how.startswith('_'):
+            continue
+        jobs.append((how, sch, (node0,), (1,)))
+    reg = [c for c in cases(outside=False)
+           if c.name in ('node0', 'node%d' % (NN - 1), 'cell1:(0,1/2)',
+                         'cell1:(1/2,1)')]
+    for how, sch in schemes_nd(2):
+        for c in reg:
+            jobs.append((how, sch, (node0, c), (1, NN)))
+            jobs.append((how, sch, (c, node0), (NN, 1)))
+    for how, sch, ct, nodes in jobs:
+        n += 1
+        key = '%s[%s] on a %s grid' % (how, ','.join(sch), ' x '.join(
+            map(str, nodes)))
+        cons = '%s at %s' % (key, ','.join(map(repr, ct)))
+        try:
+            got, axes, vals, dec = run(model, how, sch, ct, nodes=nodes)
+            want = expected(axes, sch, vals)
+        except PyRaise as e:
+            rep.violation('R1s', key, '%s: raises %s' % (cons, e.name), DU)
+            continue
+        except ZeroDivisionError:
+            rep.violation('R1s', key, '%s: the distance is normalised by a '
+                          'cell of length zero (0 / 0, nan in floating '
+                          'point)' % cons, DU)
+            continue
+        except (Undecided, SplitCase) as e:
+            rep.undecided('R1s', cons, str(e), DU)
+            continue
+        if isinstance(got, Opaque):
+            rep.violation('R1s', key, '%s: value %s, demanded %r (the '
+                          'distance on the single-node axis is normalised '
+                          'by a cell of length zero)' % (cons, got.desc,
+                                                         want), DU)
+        elif (to_rat(got) - want).is_zero():
+            rep.holds('R1s', cons, 'value %r' % (want,))
+        else:
+            rep.violation('R1s', key, '%s: value %r, demanded %r'
+                          % (cons, got, want), DU)
+    rep.floor('R1s', 'single-node-axis evaluations', n, 50)
 
 
 def interp_property(rep, model):
